@@ -379,6 +379,13 @@ struct Runner {
     }
     void moveAssign(int from, int to) {
         Slot &d = s[to], &f = s[from];
+        if (from == to) {   // x = std::move(x) leaves x as it is
+            note(d, "move-assign-self");
+            log("ma#" + std::to_string(to) + "=mv#self");
+            Buf &self = *d.b;
+            *d.b = std::move(self);
+            return;
+        }
         note(d, d.movedFrom ? "move-assign-onto-moved-from" : "move-assign");
         log("ma#" + std::to_string(to) + "=mv#" + std::to_string(from));
         size_t oldLive = d.movedFrom ? d.hidden : d.m.size();
@@ -457,7 +464,8 @@ struct Runner {
                 int from = pickValid();
                 int cand[4], n = 0;
                 for (int k = 0; k < 4; ++k) if (s[k].b && k != from) cand[n++] = k;
-                if (from >= 0 && n) moveAssign(from, cand[rng.below(n)]);
+                if (from >= 0 && rng.chance(100)) moveAssign(from, from);
+                else if (from >= 0 && n) moveAssign(from, cand[rng.below(n)]);
             }
             else if (in(35)) { int to = pickFree(); if (to >= 0) create(to); }
             else if (in(30)) {
